@@ -12,6 +12,7 @@ import Drv.Dma
 import Drv.RateConv
 import Drv.Injector
 import Drv.Bist
+import Drv.Adapter
 open DrvUtil
 
 def main (args : List String) : IO UInt32 := do
@@ -27,6 +28,9 @@ def main (args : List String) : IO UInt32 := do
   | ["bistgen"] => foldLines i o none drvBistGen; return 0
   | ["bistchk"] => foldLines i o none drvBistChk; return 0
   | ["bistspec"] => foldLines i o none drvBistSpec; return 0
+  | ["addown"] => foldLines i o none drvAdDown; return 0
+  | ["adup"] => foldLines i o none drvAdUp; return 0
+  | ["adwitness"] => mapLines i o drvAdWitness; return 0
   | ["injector"] => foldLines i o none drvInjector; return 0
   | ["ratemon"] => foldLines i o none drvRateMon; return 0
   | ["rateconv"] => foldLines i o none drvRateConv; return 0
